@@ -200,6 +200,8 @@ def main(tier, seed, write_baseline=False):
     return Rn.run_property('C20', units(tier), tier, seed, level='proof',
                            assumptions=COMMON + ['numpy.allclose(a, b, rtol, atol) := all |a-b| <= atol + rtol*|b| (assumed contract)',
                                                  '__debug__ is True',
+                                                 'never-rejects-valid is proved for U = R + E with R in SO(3) and |E_ij| <= 1e-7 (this contains every '
+                                                 'float32-rounded rotation); the monomial bounds it uses are lemmas, each an obligation of its own',
                                                  'the switch is executed natively on representative values of every kind (bool, int, '
                                                  'None, str, float, list, numpy bool/int, object, tuple): `is` comparisons are not symbolic'],
                            trusted=TRUSTED, write_baseline=write_baseline)
